@@ -40,6 +40,35 @@ Section C02.
   Proof. exact (validated_unambiguous kind T ann ft Hv). Qed.
 End C02.
 
+
+(* ---------- for EVERY grammar the generator accepts (Tier B) ----------
+   `generate_full ho digest src = Ok (out, text)` is the model of kiki::generate succeeding on
+   the source text src under any hash iteration orders ho; pt is the driver's view of the table
+   it emitted (Emit/Parser.v ptable_of: rows = chunks of the flat arrays, rule i = reduce
+   function i, terminal/nonterminal i = i-th declaration).  No validator run, no hint: the
+   invariants are proved of the construction itself (Build/GenCorrect.v, PipelineProofs.v). *)
+From Kiki Require Import Emit.Parser Pipeline PipelineProofs.
+
+Section C02_all_grammars.
+  Context {P : Type} (kind : P -> nat).
+  Variables (ho : hash_order) (digest src : str) (out : gen_out) (text : str) (pt : ptable).
+  Hypothesis Hho : perm_hash_order ho.
+  Hypothesis Hgen : generate_full ho digest src = Ok (out, text).
+  Hypothesis Hpt : ptable_of (go_file out) (go_table out) = Some pt.
+
+  Theorem C02_all_result_is_the_derivation_tree_of_the_input : forall fuel w t,
+    Forall (fun p => kind p < pt_nterm pt) w ->
+    parse kind pt fuel w = OAccept t -> wf kind pt (PN (pt_start_nt pt)) t /\ yield t = w.
+  Proof. exact (emitted_parser_sound kind ho digest src out text pt Hho Hgen Hpt). Qed.
+
+  Theorem C02_all_derivations_are_unique : forall t1 t2,
+    wf kind pt (PN (pt_start_nt pt)) t1 -> wf kind pt (PN (pt_start_nt pt)) t2 ->
+    yield t1 = yield t2 -> t1 = t2.
+  Proof. exact (accepted_grammar_unambiguous kind ho digest src out text pt Hho Hgen Hpt). Qed.
+End C02_all_grammars.
+
 Print Assumptions C02_result_is_the_derivation_tree_of_the_input.
 Print Assumptions C02_node_children_match_the_production.
 Print Assumptions C02_derivations_are_unique.
+Print Assumptions C02_all_result_is_the_derivation_tree_of_the_input.
+Print Assumptions C02_all_derivations_are_unique.
